@@ -22,7 +22,7 @@ def mix(z):
     return z ^ (z >> 31)
 
 
-NAPI = 12  # print paths in vh-mt's print mode
+NAPI = 13  # print paths in vh-mt's print mode
 
 
 def is_long(tid, seq):
@@ -57,6 +57,23 @@ def expected_record(tid, seq, strip):
 
 HEAD = re.compile(rb"<(\d+):(\d+):")
 
+# literal-only records (print path 12): bytes in pass-through mode; stripping removes the escape sequences
+LITERALS = [
+    b"<L0:\x1b[1;31merror\x1b[0m: literal zero \x1b[4mdone\x1b[0m>\n",
+    b"<L1:\x1b[32mok\x1b[0m literal one, no arguments at all>\n",
+    b"<L2:plain literal two>\n",
+    b"<L3:\x1b[38;5;208mliteral\x1b[0m \x1b[1mthree\x1b[0m \x1b[3mwith\x1b[0m \x1b[4mmany\x1b[0m \x1b[7mpieces\x1b[0m>\n",
+]
+SGR = re.compile(rb"\x1b\[[0-9;]*m")
+
+
+def literal_record(k, strip):
+    return SGR.sub(b"", LITERALS[k]) if strip else LITERALS[k]
+
+
+def is_literal(tid, seq):
+    return (seq + tid) % NAPI == 12
+
 
 def to_stderr(tid, seq):
     return (seq + tid) % NAPI in (2, 5, 9, 10, 11)
@@ -71,10 +88,25 @@ def check_pipe(data, which, threads, per, strip, res, lane, stats):
     patterns = set()
     torn = 0
     first_torn = None
+    lit_seen = {}
     pos = 0
     n = len(data)
     nrec = 0
     while pos < n:
+        lit = None
+        if data.startswith(b"<L", pos):
+            for k in range(4):
+                if data.startswith(literal_record(k, strip), pos):
+                    lit = k
+                    break
+        if lit is not None:
+            pos += len(literal_record(lit, strip))
+            nrec += 1
+            lit_seen[lit] = lit_seen.get(lit, 0) + 1
+            if which != "stdout":
+                res.violation("c19:wrong-stream", "[%s] a literal record appeared on %s" % (lane, which), check="c19", lane=lane)
+            prev_tid = None
+            continue
         m = HEAD.match(data, pos)
         ok = False
         if m:
@@ -93,6 +125,8 @@ def check_pipe(data, which, threads, per, strip, res, lane, stats):
                 q = data.find(b"<", q)
                 if q < 0:
                     q = n
+                    break
+                if data.startswith(b"<L", q) and any(data.startswith(literal_record(k, strip), q) for k in range(4)):
                     break
                 m2 = HEAD.match(data, q)
                 if m2:
@@ -123,7 +157,16 @@ def check_pipe(data, which, threads, per, strip, res, lane, stats):
         res.violations.append({"sig": "c19:torn-record", "count": torn, "check": "c19", "lane": lane,
                                "example": {"msg": "[%s %s] the stream is not a concatenation of whole records at %d places; first: %r" % (lane, which, torn, first_torn),
                                            "case": {"kind": "c19-run", "lane": lane, "bytes_hex": [], "nums": []}}})
-    expected = [(t, s) for t in range(threads) for s in range(per) if to_stderr(t, s) == (which == "stderr")]
+    if which == "stdout" and not torn:
+        want_lit = {}
+        for t in range(threads):
+            for s2 in range(per):
+                if is_literal(t, s2):
+                    want_lit[t % 4] = want_lit.get(t % 4, 0) + 1
+        if want_lit != lit_seen:
+            res.violation("c19:literal-record-count", "[%s %s] literal records seen %s, printed %s" % (lane, which, lit_seen, want_lit), check="c19", lane=lane)
+        stats["literal_records"] = stats.get("literal_records", 0) + sum(lit_seen.values())
+    expected = [(t, s) for t in range(threads) for s in range(per) if to_stderr(t, s) == (which == "stderr") and not is_literal(t, s)]
     missing = [k for k in expected if k not in seen]
     dups = [k for k, c in seen.items() if c > 1]
     if missing and not torn:
